@@ -57,6 +57,8 @@ def drive(a, rng):
     cmap = gen.CMap(kind)
     tmap = gen.random_maps(rng)[1]
     tables = gen.build_tables(a, cmap, tmap)
+    if rng.random() < 0.4:
+        gen.add_user_flags(tables, rng)      # user flag bits never matter
     S = [u for u in range(len(a["time"])) if a["flags"][u]]
     mode = rng.choice(["none", "all", "mixed", "all"])
     N = len(a["time"])
